@@ -34,11 +34,12 @@
 //!                     <VARLINK_ADDRESS is unix:<name of fd 3>> <fd 3 is a listening unix socket, inheritable>
 //!                     <the connection's address equals VARLINK_ADDRESS>) | (noact)
 //!
-//!   (act3 <world>)
-//!       `Connection::with_activate` from a process whose descriptors from 3 up are closed, so that the
-//!       listener of `varlink_exec` already is descriptor 3 (the branch that clears close-on-exec
-//!       instead of dup2), then one GetInfo call
-//!       -> (act3 (reply x<vendor>) <act>) | (act3 (fail x<why>) (noact))
+//!   (act3 <world> [x<closed>])
+//!       `Connection::with_activate` from a process whose descriptors from 3 up, and those of 0,1,2 listed
+//!       in <closed> (e.g. `0,1,2`), are closed, so that the listener of `varlink_exec` lands on the
+//!       lowest free descriptor — 3: the branch that clears close-on-exec; 0, 1 or 2: moved up with
+//!       dup2 — then one GetInfo call
+//!       -> (act3 (reply x<vendor>) <act>) | (act3 (fail x<why>) <act>)
 use crate::rng::Rng;
 use crate::suites::wire;
 use crate::sx::{self, Sx};
@@ -554,11 +555,13 @@ fn run_act3(ctx: &Ctx, l: &[Sx]) -> Sx {
     std::fs::write(&specfile, spec.to_sx().render() + "\n").unwrap();
     let dump = format!("{}/dump.json", sub.dir);
     let out = format!("{}/out", sub.dir);
+    let closed = l.get(2).and_then(|c| c.as_str()).unwrap_or_default();
     let child = std::process::Command::new(helper_path())
         .arg("actclient")
         .arg(&specfile)
         .arg(&dump)
         .arg(&out)
+        .arg(&closed)
         .stdin(std::process::Stdio::null())
         .spawn()
         .expect("spawn helper");
@@ -576,6 +579,11 @@ fn run_act3(ctx: &Ctx, l: &[Sx]) -> Sx {
             let pid = r[2].as_usize().unwrap_or(0) as u32;
             let address = r[3].as_str().unwrap_or_default();
             vec![sx::tagged("reply", vec![r[1].clone()]), act_sx(d, &address, pid)]
+        }
+        (_, Some(Sx::List(r))) if r[0].as_atom() == Some("callfail") => {
+            let pid = r[2].as_usize().unwrap_or(0) as u32;
+            let address = r[3].as_str().unwrap_or_default();
+            vec![sx::tagged("fail", vec![r[1].clone()]), act_sx(d, &address, pid)]
         }
         (_, Some(Sx::List(r))) => vec![sx::tagged("fail", vec![r.get(1).cloned().unwrap_or(sx::atom("-"))]), sx::tagged("noact", vec![])],
         _ => vec![sx::tagged("fail", vec![sx::xs("no report")]), sx::tagged("noact", vec![])],
@@ -852,6 +860,22 @@ impl Suite for AddrSuite {
                 input: sx::tagged("act3", vec![WorldSpec::plain(cfg.sx.clone()).to_sx()]),
                 tags: vec!["kind:act3".into()],
             });
+        }
+        // … or lands below 3 because the caller has (some of) its standard descriptors closed
+        for closed in ["0", "0,1,2", "2", "1,2", "0,2", "1"] {
+            cases.push(Case {
+                input: sx::tagged("act3", vec![WorldSpec::plain(wire::configs()[0].sx.clone()).to_sx(), sx::xs(closed)]),
+                tags: vec!["kind:act3".into(), format!("act3:closed-{}", closed)],
+            });
+        }
+        // empty names around `varlink` in LISTEN_FDNAMES (positions count empty pieces)
+        for names in ["::varlink", "a::varlink", "varlink::", ":varlink", "a:varlink:", ":a:varlink"] {
+            for fds in ["2", "4"] {
+                cases.push(Case {
+                    input: actenv_case(Some(fds), pid_self("", ""), Some(names), 4, "unix:%D/own.sock"),
+                    tags: vec!["kind:actenv".into(), "actenv:empty-names".into()],
+                });
+            }
         }
         let mut tok = 0usize;
         for _ in 0..n_xport {
